@@ -17,6 +17,8 @@ declare -A props=(
   [client_receive_reordered]="C03 C09 C10"
   [client_command_renamed]="C08 C14 C16"
   [latlon_decoder_renamed]="C04 C12 C03"
+  [emulator_cases_reordered]="C16 C17 C18 C06"
+  [can_codec_renamed]="C15 C09 C14 C08"
 )
 for f in harmless/*.diff; do
   n=$(basename $f .diff)
